@@ -78,7 +78,13 @@ func vT16Server() *Server {
 		}
 		return nil, errors.New("verif: no statements")
 	}
-	srv, err := NewServer(parse, MessageBufferSize(64))
+	opts := []OptionFn{MessageBufferSize(64)}
+	if vParam("R", 1) == -8 {
+		opts = append(opts, SessionAuthStrategy(ClearTextPassword(func(ctx context.Context, db, user, pw string) (context.Context, bool, error) {
+			return ctx, true, nil
+		})))
+	}
+	srv, err := NewServer(parse, opts...)
 	vAssert("newserver-ok", err == nil)
 	return srv
 }
@@ -100,6 +106,18 @@ func vT16Serve(srv *Server, lid int) {
 func vT16Conn(srv *Server, r int) {
 	var input []byte
 	stall := false
+	if r == -8 {
+		// scenario 9: a whole connection through serve on a server that asks for a
+		// password; the client has sent its start-up packet, has been asked for the
+		// password and goes silent. Nobody's command is running: Close must return.
+		conn := vNewConn(vStartup(vKV([]byte("user"), []byte("u"))))
+		conn.stall = true
+		func() {
+			defer func() { recover() }() //nolint
+			srv.serve(context.Background(), conn) //nolint
+		}()
+		return
+	}
 	if r == -7 {
 		// scenario 8: a whole connection through serve — startup, then Parse, Bind and
 		// Execute of a statement that PANICS, then the input ends. Whatever the library
